@@ -174,19 +174,19 @@ def run_tool(cmd, cwd, env, log=None, timeout=120):
         return -9, (out or '') + '\n[harness] timeout after %ds' % timeout
 
 
-def make(builddir, targets=(), env=None, log=None, flags=()):
+def make(builddir, targets=(), env=None, log=None, flags=(), timeout=120):
     return run_tool(['make', '-j1'] + list(flags) + list(targets), builddir,
-                    env or base_env(), log)
+                    env or base_env(), log, timeout)
 
 
-def ninja(builddir, targets=(), env=None, log=None, flags=()):
+def ninja(builddir, targets=(), env=None, log=None, flags=(), timeout=120):
     return run_tool([REFNINJA] + list(flags) + list(targets), builddir,
-                    env or base_env(), log)
+                    env or base_env(), log, timeout)
 
 
-def build(backend, builddir, targets=(), env=None, log=None, flags=()):
+def build(backend, builddir, targets=(), env=None, log=None, flags=(), timeout=120):
     return (make if backend == 'make' else ninja)(builddir, targets, env, log,
-                                                  flags)
+                                                  flags, timeout)
 
 
 def read_log(path):
